@@ -5,6 +5,9 @@ between-iteration point of executions with transfers in progress; safety
 monitors on every transition, "both sockets closed, everything reported" on
 every bottom SCC of the state graph.'''
 from ..tcpcl_world import TcpclWorld
+from ..peer_world import PeerWorld, PATH, IFACE
+from ..world import Violation
+from ..oracle import tcpclv4 as T
 from ..monitors import EscapeMonitor, DeliveryMonitor, WireMonitor, TerminationMonitor
 from ..evidence import graph_evidence
 from .c01 import hexn, DEVS
@@ -12,7 +15,164 @@ from .c01 import hexn, DEVS
 PROP = 'C09'
 
 
+# ---------------------------------------------------------------------------
+# one real endpoint against a scripted, conforming peer that may also refuse a transfer
+
+class TermPeerWorld(PeerWorld):
+    '''Events: one callback of the endpoint R; the user calls terminate() (once); the peer
+    sends its SESS_TERM (once; marked as reply when R's has already arrived), acknowledges the
+    oldest unacknowledged segment, or refuses R's transfer (once, if the scenario allows it).
+    The peer reads everything R writes at once.  R's transfer has several segments, so every
+    one of these can happen before, between and after the segments.'''
+
+    def __init__(self, params):
+        prm = dict(role=params.get('role', 'passive'), seg_mru=4, tx_init=4, queued=tuple(params['bundles']), max_quiesce=400)
+        self.opts = dict(refuse=params.get('refuse', False), user_term=params.get('user_term', True),
+                         peer_term=params.get('peer_term', True))
+        self.parser = T.StreamParser()
+        self.parsed = 0
+        self.outstanding = []      # (transfer id, cumulative length, flags) written by R, not acknowledged
+        self.acked = {}
+        self.refused = set()
+        self.started = []          # transfer ids whose START segment R wrote
+        self.r_term_seen = 0       # SESS_TERM messages R wrote
+        self.done = dict(user_term=False, peer_term=False, refuse=False)
+        self.start_after_term = False
+        PeerWorld.__init__(self, prm)
+        # establish the session (R runs to quiescence; its queued bundles may start)
+        self.peer_write(T.enc_contact(0) + T.enc_sess_init(0, 4, 1000, b'dtn://peer/'))
+        self.absorb()
+
+    def canon_extra(self, c):
+        PeerWorld.canon_extra(self, c)
+        c.walk(self.outstanding)
+        c.walk(sorted(self.acked.items()))
+        c.walk(sorted(self.refused))
+        c.walk(self.done)
+        c.out.append('t%d' % self.r_term_seen)
+
+    def absorb(self):
+        for msg in self.parser.feed(self.out_octets[self.parsed:]):
+            if msg['kind'] == 'XFER_SEGMENT':
+                tid = msg['transfer_id']
+                if msg['flags'] & 2:
+                    self.started.append(tid)
+                    if self.r_term_seen:
+                        self.start_after_term = True
+                prev = [o for o in self.outstanding if o[0] == tid]
+                total = (prev[-1][1] if prev else self.acked.get(tid, 0)) + len(msg['data'])
+                if tid not in self.refused:
+                    self.outstanding.append((tid, total, msg['flags']))
+            elif msg['kind'] == 'SESS_TERM':
+                self.r_term_seen += 1
+        self.parsed = len(self.out_octets)
+
+    def established(self):
+        return any(sig == ('session_state_changed', 'established') for sig in self.signals)
+
+    def enabled_events(self):
+        events = []
+        if self.runnable(self.proc):
+            events.append(('run', 'R'))
+        if self.r_closed():
+            return events
+        if self.opts['user_term'] and not self.done['user_term'] and self.established():
+            events.append(('user', 'terminate'))
+        if self.opts['peer_term'] and not self.done['peer_term']:
+            events.append(('peer', 'sess-term'))
+        if self.outstanding:
+            events.append(('peer', 'ack-next'))
+        if self.opts['refuse'] and not self.done['refuse'] and self.started:
+            events.append(('peer', 'refuse'))
+        return events
+
+    def is_deviation(self, event):
+        return False
+
+    def apply(self, event):
+        viols = []
+        if event[0] == 'peer':
+            if event[1] == 'sess-term':
+                self.done['peer_term'] = True
+                self.peer_write(T.enc_sess_term(1 if self.r_term_seen else 0, 0))
+            elif event[1] == 'ack-next':
+                (tid, total, flags) = self.outstanding.pop(0)
+                self.acked[tid] = total
+                self.peer_write(T.enc_ack(flags, tid, total))
+            elif event[1] == 'refuse':
+                self.done['refuse'] = True
+                tid = self.started[-1]
+                self.refused.add(tid)
+                self.outstanding = [o for o in self.outstanding if o[0] != tid]
+                self.peer_write(T.enc_refuse(1, tid))
+            viols.extend(self.collect(event))
+        elif event[0] == 'user':
+            self.done['user_term'] = True
+            res = self.bus_call(self.proc, PATH, 'terminate', 0, iface=IFACE)
+            self.user_results.append(res[0])
+            viols.extend(self.collect(event))
+        else:
+            (more, _eff) = PeerWorld.apply(self, event)
+            viols.extend(more)
+        # the peer reads whatever R wrote
+        pipe = self.conns[0].buf[1 - self.ridx]
+        if pipe:
+            del pipe[:]
+        self.absorb()
+        viols.extend(self.judge())
+        return viols, True
+
+    def v(self, kind, sig, detail):
+        return Violation(PROP, 'scripted-peer', kind, sig, detail)
+
+    def judge(self):
+        out = []
+        if self.escaped:
+            esc = self.escaped[-1]
+            out.append(self.v('escaped-exception', dict(exc=esc[0]), '%s: %s' % (esc[0], esc[2])))
+        if self.r_term_seen > 1:
+            out.append(self.v('second-sess-term', dict(), 'R wrote SESS_TERM %d times' % self.r_term_seen))
+        if self.start_after_term:
+            out.append(self.v('transfer-started-after-sess-term', dict(), 'transfers started %r' % (self.started,)))
+        fins = [sig[1] for sig in self.signals if sig[0] == 'send_bundle_finished']
+        for bid in set(fins):
+            if fins.count(bid) > 1:
+                out.append(self.v('transfer-finished-twice', dict(), 'id %s' % bid))
+        return out
+
+    def check_state(self):
+        '''Terminal states (nothing enabled): once both SESS_TERM have crossed and every segment R
+        wrote is acknowledged or its transfer refused, R must have closed on its own, every transfer
+        it started completed or was refused, and everything queued has been reported.'''
+        out = []
+        if self.enabled_events():
+            return out
+        if self.r_closed():
+            fins = dict((sig[1], sig[3]) for sig in self.signals if sig[0] == 'send_bundle_finished')
+            for (k, res) in enumerate(self.user_results_of_send()):
+                if res is not None and str(res) not in fins:
+                    out.append(self.v('queued-bundle-never-reported', dict(), 'id %s; finished signals %r' % (res, fins)))
+            for tid in self.started:
+                if tid not in self.refused and fins.get(str(tid)) != 'success' and self.r_term_seen and self.done['peer_term']:
+                    out.append(self.v('started-transfer-not-completed', dict(), 'id %d: %r' % (tid, fins.get(str(tid)))))
+            return out
+        if self.r_term_seen and self.done['peer_term'] and not self.outstanding:
+            out.append(self.v('terminated-session-never-closes', dict(refused=bool(self.refused)),
+                              'both SESS_TERM exchanged, nothing outstanding (acknowledged %r, refused %r), '
+                              'R stays open in state %r' % (self.acked, sorted(self.refused), [s[1] for s in self.signals if s[0] == 'session_state_changed'][-1:])))
+        return out
+
+    def user_results_of_send(self):
+        # ids handed out for the bundles queued at start (in order)
+        return list(range(1, len(self.params['queued']) + 1))
+
+    def outcome(self):
+        return 'closed=%s refused=%s' % (self.r_closed(), sorted(self.refused))
+
+
 def build(params):
+    if params.get('scripted_peer'):
+        return TermPeerWorld(params)
     world = TcpclWorld(params)
     wire = WireMonitor(PROP)
     dlv = DeliveryMonitor(PROP, expect_all=False)
@@ -44,7 +204,20 @@ def scenarios(tier):
     out.append(_scen('A1+A1+termA', {'A': [s1, s1b, term], 'B': []}, dev_bound=0, weight=30))
     out.append(_scen('closeA-anywhere-d1', {'A': [s5, close], 'B': []}, dev_bound=1, weight=30))
     out.append(_scen('closeB-anywhere', {'A': [s5], 'B': [close]}, dev_bound=0, weight=30))
+    # scripted conforming peer (acknowledges, terminates, may refuse the transfer in progress)
+    for role in ('passive', 'active'):
+        for (label, opts) in (('user-term+refusal', dict(refuse=True, user_term=True, peer_term=True)),
+                              ('peer-term+refusal', dict(refuse=True, user_term=False, peer_term=True)),
+                              ('user-term', dict(refuse=False, user_term=True, peer_term=True))):
+            nm = 'peer/%s/%s' % (role, label)
+            out.append(dict(name=nm, kind='graph', params=dict(scripted_peer=True, role=role, bundles=[hexn(9)], **opts),
+                            dev_bound=0, weight=15, max_states=600000, liveness=False))
     if tier == 'thorough':
+        for role in ('passive', 'active'):
+            nm = 'peer/%s/two-bundles+refusal' % role
+            out.append(dict(name=nm, kind='graph', params=dict(scripted_peer=True, role=role, bundles=[hexn(9), hexn(5, 0xb0)],
+                                                               refuse=True, user_term=True, peer_term=True),
+                            dev_bound=0, weight=60, max_states=600000, liveness=False))
         out.append(_scen('A1|termB-d1', {'A': [s1], 'B': [term]}, dev_bound=1, weight=60))
         out.append(_scen('A1+termA|B1', {'A': [s1, term], 'B': [s1b]}, dev_bound=0, weight=90))
         out.append(_scen('A1+termA|termB', {'A': [s1, term], 'B': [term]}, dev_bound=0, weight=60))
@@ -64,6 +237,7 @@ ASSUMPTIONS = [
     'terminate() before the session is established is answered with an error reply and counts as refused',
     'for close()/peer disconnect only "no half-open session, no escaped exception" is required',
     'liveness is judged on bottom SCCs of the complete state graph (weak fairness of the event loop)',
+    'scripted-peer graphs: a conforming peer that reads at once, acknowledges in order, sends its SESS_TERM at any point and may refuse the transfer in progress at any point; in terminal states with both SESS_TERM exchanged and nothing outstanding the endpoint must have closed by itself',
 ]
 
 RULE = ('explicit-state BFS over two real ContactHandler objects with user terminate()/close() enabled at '
